@@ -158,3 +158,34 @@ func (v *VerifSendStream) Drain(k int) (out []VerifPacket) {
 
 // VerifQueueSendTimeout is how long a send waits for room in the queue
 const VerifQueueSendTimeout = queueSendTimeout
+
+// Cleanup runs the stream's cleanup (what MultiConn.Stop does to every stream), as another goroutine would while the receive
+// service is between two packets of a message
+func (v *VerifStream) Cleanup() {
+	if v.s.sendQueue == nil {
+		v.s.sendQueue = make(chan *PacketWithTiming, 1)
+	}
+	v.s.cleanup()
+}
+
+// VerifHeartbeatConn is a connection reduced to its heartbeat stream (send queue of a chosen capacity, no send service)
+type VerifHeartbeatConn struct{ c *MultiConn }
+
+func VerifNewHeartbeatConn(queueCap int) *VerifHeartbeatConn {
+	hb := &Stream{topic: lib.Topic_HEARTBEAT, msgAssembler: make([]byte, 0), sendQueue: make(chan *PacketWithTiming, queueCap), logger: lib.NewNullLogger()}
+	return &VerifHeartbeatConn{c: &MultiConn{streams: map[lib.Topic]*Stream{lib.Topic_HEARTBEAT: hb}, p2p: &P2P{}, log: lib.NewNullLogger()}}
+}
+
+// SendHeartbeat is the heartbeat goroutine's ping (the real MultiConn.sendHeartbeat)
+func (v *VerifHeartbeatConn) SendHeartbeat() { v.c.sendHeartbeat() }
+
+// Pong is the receive goroutine's answer to a ping (the real MultiConn.handleHeartbeatPacket)
+func (v *VerifHeartbeatConn) Pong() {
+	v.c.handleHeartbeatPacket(&Packet{StreamId: lib.Topic_HEARTBEAT, Eof: true, Bytes: []byte(heartbeatPing)})
+}
+
+// Cleanup is what Stop() does to the heartbeat stream
+func (v *VerifHeartbeatConn) Cleanup() { v.c.streams[lib.Topic_HEARTBEAT].cleanup() }
+
+// QueueLen is the number of heartbeat packets waiting
+func (v *VerifHeartbeatConn) QueueLen() int { return len(v.c.streams[lib.Topic_HEARTBEAT].sendQueue) }
